@@ -432,8 +432,11 @@ impl Ctx {
                 for c in dir["path"].as_array().unwrap() {
                     let c = c.as_str().unwrap();
                     // "<step>.<key name>" -> "<step>.<8 hex of that key's id>"
-                    let (step, key) = c.rsplit_once('.').unwrap();
-                    p = p.join(format!("{}.{}", step, &self.km.idstr(key)[0..8]));
+                    // (a component without a key name is a plain directory)
+                    match c.rsplit_once('.') {
+                        Some((step, key)) if self.order.iter().any(|n| n == key) => p = p.join(format!("{}.{}", step, &self.km.idstr(key)[0..8])),
+                        _ => p = p.join(c),
+                    }
                 }
                 std::fs::create_dir_all(&p).unwrap();
                 for f in dir["files"].as_array().unwrap() {
@@ -636,6 +639,18 @@ pub fn instant_of(off: i64) -> DateTime<Utc> {
         2_050_000_000 => t0() + Duration::days(292 * 365),
         2_060_000_000 => t0() + Duration::days(293 * 365),
         2_100_000_000 => ymd(9999, 12, 30, 23, 59, 59),
+        // the latest 30 December noon before the verification time that belongs to ISO week 1 of the FOLLOWING year
+        -2_020_000_000 => {
+            use chrono::Datelike;
+            let mut y = t0().year() - 1;
+            loop {
+                let d = ymd(y, 12, 30, 12, 0, 0);
+                if d < t0() && d.iso_week().year() != y {
+                    break d;
+                }
+                y -= 1;
+            }
+        }
         // calendar boundaries (all in the future): a Friday 1 January, a Monday 29 December, a leap day, a year's last second
         2_010_000_000 => ymd(2100, 1, 1, 0, 0, 0),
         2_011_000_000 => ymd(2098, 12, 29, 12, 0, 0),
